@@ -156,6 +156,17 @@ def reconLine (rs : RibSt) (rc : RcSt) (ts : List Tok) : RibSt × RcSt :=
         else if rc.applyOk then (rs.monfail "c15" s!"a second reconciliation still yields {tokStr n} operations", rc)
         else (rs, rc)
       | _ => (bad rs, rc)
+    else if c = "rc.round2" then
+      -- the target reconciled once more, towards an empty RIB: every operation succeeds and
+      -- nothing is left (judged only when the first round's operations all succeeded)
+      match args with
+      | [nops, nfailed, left] =>
+        if !rc.applyOk then (rs, rc)
+        else if tokStr nops == "-1" then (rs.monfail "c15" "the second reconciliation (towards an empty RIB) failed", rc)
+        else if tokStr nfailed != "0" then (rs.monfail "c15" s!"second reconciliation of the converged target, towards an empty RIB: {tokStr nfailed} of {tokStr nops} operations sent in the documented order did not succeed", rc)
+        else if tokStr left != "0" then (rs.monfail "c15" s!"second reconciliation of the converged target, towards an empty RIB: {tokStr left} entries are left", rc)
+        else (rs.covr "rc.round2", rc)
+      | _ => (bad rs, rc)
     else if c = "rc.roundtrip" then
       match args with
       | [ok, msg] =>
